@@ -95,11 +95,19 @@ class Walker:
         self.filter_text = initial_filter          # None = '*'
         self.filter = matcher.parse(initial_filter).simplify() if initial_filter else matcher.always
         self.filter_never = False
+        if initial_filter and self.filter.always() is True:
+            initial_filter = None                  # a start-up filter that selects everything is no filter: the next one replaces it
+            self.filter_text = None
+        elif initial_filter and self.filter.always() is False:
+            self.filter_never = True               # ... and one that selects nothing is `!`
+            self.filter_text = '!'
         # accumulation (`filter X` without a reset): a model over atoms is exact as long as the current filter was built from
         # atoms; after an opaque (generated, possibly nested) matcher was installed, extending it makes the expectation unknown
         self.acc = AccModel(matcher, 'star')
+        if self.filter_never:
+            self.acc.reset_never()
         self.acc_parsed = {}
-        self.opaque = bool(initial_filter)
+        self.opaque = bool(initial_filter) and not self.filter_never
         self.unknown = False
         self.sel = None                            # selected connection name
         self.recorded = []                         # real messages in arrival order
